@@ -53,7 +53,7 @@ class Occ(Part):
 
     def budget(self, tier):
         return {"quick": dict(examples=500, shards=4, seconds=100),
-                "thorough": dict(examples=3000, shards=16, seconds=900)}[tier]
+                "thorough": dict(examples=3000, shards=16, seconds=600)}[tier]
 
     def strategy(self, tier):
         return gen.case_occ(max_extent=6 if tier == "quick" else 9)
@@ -71,7 +71,7 @@ class Flat(Part):
 
     def budget(self, tier):
         return {"quick": dict(examples=400, shards=4, seconds=100),
-                "thorough": dict(examples=3000, shards=16, seconds=900)}[tier]
+                "thorough": dict(examples=3000, shards=16, seconds=600)}[tier]
 
     def strategy(self, tier):
         return gen.case_flat(max_extent=5 if tier == "quick" else 8)
@@ -105,7 +105,7 @@ class Accelerators(Part):
 
     def budget(self, tier):
         return {"quick": dict(examples=60, shards=2, seconds=100),
-                "thorough": dict(examples=500, shards=8, seconds=900)}[tier]
+                "thorough": dict(examples=500, shards=8, seconds=600)}[tier]
 
     def strategy(self, tier):
         @st.composite
